@@ -57,8 +57,9 @@ CLAIMED = {
                      '(independence in simulated time), upstream failures, process kill. Oracle: every response pixel-exact '
                      'and attributable to one fetch, final cache holds only correct in-grid tiles incl. every served tile '
                      '(API + raw walk), one fetch per meta tile, termination.',
-                note='trusted: stub source instead of HTTP client, SimFS flock/rename semantics, pre-emption at seam calls only; '
-                     'TileManager level (not the WSGI stack)',
+                note='trusted: stub source (TileManager-level runs) or simulated HTTP transport behind HTTPClient.open (about 20% of the '
+                     'runs go through the full WSGI application built by the real loader: TMS/WMTS/KML/WMS-C/WMS GetMap), SimFS '
+                     'flock/rename semantics, pre-emption at seam calls only',
                 technique='deterministic simulation: baton-passing scheduler over threads and simulated processes, simulated fs/locks/upstream, seeded schedule + fault search'),
     'C13': dict(level='exploration', ref='DESIGN.md 6.7',
                 text='seeded histories of tile requests, clock advances (sub-second, to a second boundary, backwards, hours), '
